@@ -688,7 +688,40 @@ def _read_array(raw, pos):
     return it, pos
 
 
+def in_domain(line):
+    """does the property say anything about this invocation?  (wrong usage, unreadable files, malformed manifests, undecodable input,
+    `decode` without -p, bad timestamps: the tool's reaction - exit status, usage text, panic or message - is unspecified)"""
+    try:
+        clock, argv, stdin, files = parse_line(line)
+    except Exception:
+        return True
+    cmd = argv[1] if len(argv) > 1 else None
+    if cmd == b"rnd":
+        return clock > OFFSET_MS
+    if cmd == b"encode":
+        return expected_encode(clock, argv, stdin, files) is not None
+    if cmd == b"decode" and len(argv) == 4 and argv[3] == b"-p" and argv[0] != NEG:
+        raw = stdin if argv[2] == b"-" else None
+        if raw is None:
+            if not re.fullmatch(rb"[0-9a-fA-F]*", argv[2]) or len(argv[2]) % 2:
+                return False
+            raw = bytes.fromhex(argv[2].decode("ascii"))
+        return _payload_of_reference(raw) is not None
+    if cmd in (b"dtntime", b"d2u") and len(argv) == 3:
+        return bool(re.fullmatch(rb"[0-9]+", argv[2])) and int(argv[2]) < U64
+    if cmd == b"dtntime" and len(argv) == 2:
+        return OFFSET_MS <= clock < U64
+    return False
+
+
 def same(line, io, mo):
+    """model/implementation differences that are NOT a broken correspondence: invocations the property does not speak about, and the
+    wording of the text `dtntime` prints for a time beyond year 9999 (only 'prints something, exit 0' is specified there)"""
+    if not in_domain(line):
+        return True
+    clock, argv, stdin, files = parse_line(line)
+    if len(argv) == 3 and argv[1] == b"dtntime" and int(argv[2]) > LAST_9999:
+        return (io or "").startswith("OK 0 ") and (mo or "").startswith("OK 0 ")
     return False
 
 
